@@ -116,7 +116,7 @@ CHECKS = {
         "technique": "CrossHair obligations with symbolic SKIP_CLASS / SORT_KEYS and unbounded positions over the nested mappings of a range / a code origin; bounded symbolic execution of the real (de)serialization front-ends with every option a lazy symbolic boolean consulted per nested object and a lazy symbolic fault bit per nested hooked object (fault schedule), selectors for call kind / dialect / input corruption",
         "text": "For every call kind (4 serializers, 4 deserializers), dialect, corruption and EVERY value of the option bits and fault bits that the real code consults: nested mappings obey the options in force, and after the call - returned or raised - the option slots are clear and a default as_dict() equals the baseline. quick: one option-carrying call + default call; thorough: two.",
         "design_ref": "DESIGN.md section 4, C16",
-        "note": "trusted: symx, z3, output walker; YAML key order not checked (the dumper sorts itself)",
+        "note": "trusted: symx, z3, output walker; key order checked for all four front-ends",
     },
     "C18": {
         "engine": "symx (engine P)",
